@@ -110,8 +110,8 @@ func trunc(x uint64, w uint8) uint64 {
 }
 
 func cint(v int64, w uint8, s bool) Int { return Int{C: trunc(uint64(v), w), W: w, S: s} }
-func goInt(v int) Int                  { return Int{C: uint64(v), W: 64, S: true} }
-func cbyte(b byte) Int                 { return Int{C: uint64(b), W: 8} }
+func goInt(v int) Int                   { return Int{C: uint64(v), W: 64, S: true} }
+func cbyte(b byte) Int                  { return Int{C: uint64(b), W: 8} }
 
 func (i Int) signed() int64 {
 	if i.W >= 64 {
